@@ -41,6 +41,7 @@ CLASSES = [
     ("XP", "XPathExecutionContextDefault", "XPath/XPathExecutionContextDefault.hpp", "XPath/XPathExecutionContextDefault.cpp"),
     ("VS", "VariablesStack", "XSLT/VariablesStack.hpp", "XSLT/VariablesStack.cpp"),
     ("PR", "XSLTEngineImpl", "XSLT/XSLTEngineImpl.hpp", "XSLT/XSLTEngineImpl.cpp"),
+    ("SO", "NodeSorter", "XSLT/NodeSorter.hpp", "XSLT/NodeSorter.cpp"),
 ]
 BASES = {  # base classes whose fields are inherited (read from the AST too)
     "EC": ["XPathExecutionContext", "ExecutionContext"],
@@ -49,7 +50,13 @@ BASES = {  # base classes whose fields are inherited (read from the AST too)
 NESTED = {  # member -> tag of the modelled class it is an instance of
     ("EC", "m_xpathExecutionContextDefault"): "XP",
     ("EC", "m_variablesStack"): "VS",
+    ("EC", "m_nodeSorter"): "SO",
 }
+# members that reset() does not touch and that the interpreter restores with scope guards: accessors that hand out a
+# mutable reference to them (sites outside the owning class are found through these)
+GUARD_ACCESSORS = {("SO", "m_keys"): ["getSortKeys"]}
+MUTATORS = r"(?:push_back|reserve|resize|insert|assign|swap|pop_back|erase|clear)"
+
 POINTS_TO = {  # pointer member -> tag of the modelled (per-call) class it points to
     ("EC", "m_xsltProcessor"): "PR",
 }
@@ -206,7 +213,8 @@ def clang_fields(names):
     os.makedirs(os.path.join(common.CACHE, "work"), exist_ok=True)
     tu = os.path.join(common.CACHE, "work", "c06_tu_%d.cpp" % os.getpid())
     with open(tu, "w") as f:
-        f.write("#include <xalanc/XalanTransformer/XalanTransformer.hpp>\n"
+        f.write("#include <xalanc/XSLT/NodeSorter.hpp>\n"
+                "#include <xalanc/XalanTransformer/XalanTransformer.hpp>\n"
                 "#include <xalanc/XSLT/StylesheetExecutionContextDefault.hpp>\n"
                 "#include <xalanc/XSLT/XSLTEngineImpl.hpp>\n")
     res = {}
@@ -757,6 +765,7 @@ def main():
     ctor("XP", "XPathExecutionContextDefault", lambda p: "XPathEnvSupport" not in p and "theCurrentNode" in p)
     ctor("VS", "VariablesStack", lambda p: True)
     ctor("PR", "XSLTEngineImpl", lambda p: True)
+    ctor("SO", "NodeSorter", lambda p: True)
     # defaults of create(): theCurrentNode = 0, theContextNodeList = 0, thePrefixResolver = 0
     for tag in ("EC", "XP"):
         hdr = src[tag][0]
@@ -778,6 +787,164 @@ def main():
                 # a member its constructor leaves uninitialised: give it a value of its kind and record it
                 M.notes.append("%s.%s is not initialised by the constructor" % (mem["tag"], mem["name"]))
                 fresh[mem["id"]] = {"ptr": ("ptr", 0), "flag": ("flag", False), "num": ("num", 0)}.get(mem["kind"], ("seq", []))
+
+    # ---- members restored by scope guards in the interpreter (not by reset): every site that mutates one must hold a
+    # CollectionClearGuard on it, declared before the first mutation, in the same block
+    def all_sources():
+        res = []
+        for base, _, files in os.walk(SRC):
+            for f in sorted(files):
+                if f.endswith((".cpp", ".hpp")):
+                    rel = os.path.relpath(os.path.join(base, f), SRC)
+                    res.append((rel, resolve_ifs(strip_comments(read(rel)), defined)))
+        return sorted(res)
+
+    def block_after(text, pos):
+        """text from pos to the end of the innermost block that contains pos"""
+        d, k = 0, pos
+        while k < len(text):
+            if text[k] == "{":
+                d += 1
+            elif text[k] == "}":
+                d -= 1
+                if d < 0:
+                    break
+            k += 1
+        return text[pos:k]
+
+    def guarded_before_first_mutation(region, var):
+        mm = re.search(r"\b%s\s*(?:\.|->)\s*%s\s*\(|\b%s\s*\[[^\]]*\]\s*=(?!=)|\b%s\s*=(?!=)" % (var, MUTATORS, var, var), region)
+        mg = re.search(r"CollectionClearGuard\s*<[^;>]*>\s+\w+\s*\(\s*%s\s*\)\s*;" % var, region)
+        if mm is None:
+            return None            # read-only use
+        return mg is not None and mg.start() < mm.start()
+
+    guard_sites = []     # (member id, site, ok)
+    guarded_members = [(t, n) for (t, n) in M.index if classification.get("%s.%s" % (t, n), {}).get("class") == "guarded"]
+    sources_all = None
+    for (t, n) in sorted(guarded_members):
+        mid = M.index[(t, n)]
+        cname = dict((c[0], c[1]) for c in CLASSES)[t]
+        cpp = src[t][1]
+        found = 0
+        # (a) member functions of the owning class
+        for mf in re.finditer(r"\b%s::(~?\w+)\s*\(" % cname, cpp):
+            try:
+                b, line, _ = find_body(cpp[mf.start():], r"\b%s::~?\w+\s*\((?:[^()]|\([^()]*\))*\)\s*(?:const\s*)?" % cname, "x")
+            except TErr:
+                continue
+            if mf.group(1) in (cname, "~" + cname):
+                continue
+            ok = guarded_before_first_mutation(b, n)
+            if ok is None:
+                continue
+            found += 1
+            guard_sites.append((mid, "%s:%d %s::%s" % (src[t][3], cpp.count("\n", 0, mf.start()) + 1, cname, mf.group(1)), ok))
+        # (b) users of an accessor that hands out a mutable reference
+        for acc in GUARD_ACCESSORS.get((t, n), []):
+            if sources_all is None:
+                sources_all = all_sources()
+            nacc = 0
+            for rel, text in sources_all:
+                for mu in re.finditer(r"(const\s+)?[\w:]+\s*&\s*(\w+)\s*=\s*[^;{}]*\b%s\s*\(\s*\)\s*;" % acc, text):
+                    nacc += 1
+                    if mu.group(1):
+                        continue       # const reference: cannot mutate
+                    ok = guarded_before_first_mutation(block_after(text, mu.end()), mu.group(2))
+                    if ok is None:
+                        continue
+                    found += 1
+                    guard_sites.append((mid, "%s:%d via %s()" % (rel, text.count("\n", 0, mu.start()) + 1, acc), ok))
+                # any other use of the accessor (not bound to a named reference) cannot be followed: count it as unguarded
+                for mu in re.finditer(r"\b%s\s*\(\s*\)\s*(?:\.|->)\s*%s\s*\(" % (acc, MUTATORS), text):
+                    found += 1
+                    guard_sites.append((mid, "%s:%d direct %s().mutate" % (rel, text.count("\n", 0, mu.start()) + 1, acc), False))
+            if nacc == 0:
+                raise TErr("no user of the accessor %s() found: the way %s.%s is handed out has changed" % (acc, t, n))
+        # (c) a helper class that reaches the member through a reference to the owner (NodeSortKeyCompare: m_sorter.m_x):
+        # the helper must only be constructed in a block that already holds the guard
+        helper = {"SO": "NodeSortKeyCompare"}.get(t)
+        if helper and re.search(r"\.\s*%s\b" % n, cpp):
+            ncons = 0
+            for rel, text in ([(src[t][3], cpp)]):
+                for mu in re.finditer(r"\b%s\s+\w+\s*\(" % helper, text):
+                    # the enclosing block, from its start
+                    d, k = 0, mu.start()
+                    while k > 0:
+                        k -= 1
+                        if text[k] == "}":
+                            d += 1
+                        elif text[k] == "{":
+                            if d == 0:
+                                break
+                            d -= 1
+                    before = text[k:mu.start()]
+                    ok = bool(re.search(r"CollectionClearGuard\s*<[^;>]*>\s+\w+\s*\(\s*%s\s*\)\s*;" % n, before))
+                    ncons += 1
+                    found += 1
+                    guard_sites.append((mid, "%s:%d construction of %s (reaches %s through its owner reference)" % (
+                        rel, text.count("\n", 0, mu.start()) + 1, helper, n), ok))
+            if sources_all is None:
+                sources_all = all_sources()
+            for rel, text in sources_all:
+                if rel not in (src[t][3], src[t][2]) and re.search(r"\b%s\b" % helper, text):
+                    guard_sites.append((mid, "%s: %s used outside its owner" % (rel, helper), False))
+        if found == 0:
+            raise TErr("member %s.%s is classified `guarded` but no site mutating it was found" % (t, n))
+
+    # the scratch QName: every user must assign it before reading it
+    scratch_sites = []
+    if ("XP", "m_scratchQName") in M.index:
+        if sources_all is None:
+            sources_all = all_sources()
+        for rel, text in sources_all:
+            if not rel.startswith(("XPath/XPathExecutionContextDefault", "XSLT/StylesheetExecutionContextDefault")):
+                if re.search(r"\bgetScratchQName\s*\(", text) and "XPathExecutionContextDefault" in text:
+                    scratch_sites.append(("%s: use outside the two execution contexts" % rel, False))
+                continue
+            for mu in re.finditer(r"XalanQNameByValue\s*&\s*(\w+)\s*=\s*[^;]*\bgetScratchQName\s*\(\s*\)\s*;", text):
+                rest = text[mu.end():].lstrip()
+                ok = bool(re.match(r"%s\s*\.\s*set\s*\(" % mu.group(1), rest))
+                scratch_sites.append(("%s:%d" % (rel, text.count("\n", 0, mu.start()) + 1), ok))
+            # direct uses of the member other than in the accessor / constructors
+            for mu in re.finditer(r"\bm_scratchQName\b", text):
+                ctxt = text[max(0, mu.start() - 80):mu.end() + 40]
+                if re.search(r"return\s+m_scratchQName\s*;", ctxt) or re.search(r"m_scratchQName\s*\(", ctxt) or re.search(r"XalanQNameByValue\s+m_scratchQName\s*;", ctxt):
+                    continue
+                # a read right after the set in the same function (elementAvailable(m_scratchQName)) is fine when a set precedes it
+                before = text[max(0, mu.start() - 400):mu.start()]
+                ok = bool(re.search(r"\.\s*set\s*\([^;]*;\s*(return\s+)?\w*\s*\(?\s*$", before)) or bool(re.search(r"\.\s*set\s*\(", before.split("{")[-1]))
+                scratch_sites.append(("%s:%d direct" % (rel, text.count("\n", 0, mu.start()) + 1), ok))
+        if not scratch_sites:
+            raise TErr("no user of getScratchQName() found")
+
+    # enumeration of the RAII helper classes of the two abstract execution contexts, the context methods their
+    # constructor/destructor call, and the members those methods touch (informational + one obligation below)
+    guard_classes = []
+    for rel, own in (("XSLT/StylesheetExecutionContext.hpp", "EC"), ("XPath/XPathExecutionContext.hpp", "XP")):
+        text = resolve_ifs(strip_comments(read(rel)), defined)
+        for mc in re.finditer(r"\bclass\s+(\w*(?:Guard|PushAndPop|SetAndRestore|BorrowReturn|GetCached|GetAndRelease|PushPop)\w*)\b[^;{]*\{", text):
+            body = block_after(text, mc.end())
+            calls = sorted(set(re.findall(r"(?:m_\w*[cC]ontext\w*|theExecutionContext|executionContext)\s*(?:\.|->)\s*(\w+)\s*\(", body)))
+            members = set()
+            for meth in calls:
+                for t2 in ("EC", "XP"):
+                    cn = dict((c[0], c[1]) for c in CLASSES)[t2]
+                    mm2 = re.search(r"\b%s::%s\s*\(" % (cn, meth), src[t2][1])
+                    if not mm2:
+                        continue
+                    try:
+                        b2, _, _ = find_body(src[t2][1][mm2.start():], r"\b%s::%s\s*\((?:[^()]|\([^()]*\))*\)\s*(?:const\s*)?" % (cn, meth), "x")
+                    except TErr:
+                        continue
+                    for mem in set(re.findall(r"\b(m_\w+)\b", b2)):
+                        if (t2, mem) in M.index:
+                            members.add("%s.%s" % (t2, mem))
+                        elif (t2, mem) in NESTED:
+                            members.add("%s.*" % NESTED[(t2, mem)])
+            guard_classes.append({"class": mc.group(1), "file": rel, "calls": calls, "members": sorted(members)})
+    if len(guard_classes) < 8:
+        raise TErr("only %d RAII helper classes found in the execution context headers" % len(guard_classes))
 
     # ---- classification
     roles = {}
@@ -808,10 +975,22 @@ def main():
         if in_hdr != 1 or in_cpp != in_init:
             raise TErr("%s is classified as unused but is mentioned %d time(s) in the header and %d time(s) outside init lists" % (
                 key, in_hdr, in_cpp - in_init))
+    restored = ("transient", "percall", "guarded", "percall-object", "const")
+    guard_class_problems = []
+    for gc in guard_classes:
+        for key in gc["members"]:
+            if key.endswith(".*"):
+                continue
+            tag, name = key.split(".", 1)
+            r_ = roles[M.index[(tag, name)]]
+            # config/sticky members are read, not written, by these helpers (formatter / collation functors); the scratch QName has its own obligation
+            if r_ not in restored and r_ not in ("config", "sticky") and key != "XP.m_scratchQName":
+                guard_class_problems.append("%s touches %s (%s)" % (gc["class"], key, r_))
     stale = [k for k in classification if tuple(k.split(".", 1)) not in M.index]
 
     ROLE_CTOR = {"transient": ".transient", "percall": ".perCall", "sticky": ".sticky", "config": ".config",
-                 "cache": ".cache", "percall-object": ".perCallObject", "const": ".const", "unclassified": ".unclassified"}
+                 "cache": ".cache", "percall-object": ".perCallObject", "const": ".const", "guarded": ".guarded",
+                 "unclassified": ".unclassified"}
     for r in roles.values():
         if r not in ROLE_CTOR:
             raise TErr("unknown class %r in gen/c06_members.json" % r)
@@ -851,6 +1030,15 @@ def main():
     L.append("def objStackResetZeroesDepth : Bool := %s" % ("true" if funcs[("OSC", "zeroes")] else "false"))
     L.append("/-- setStylesheetParam(k, expression) drops a stored object for k and vice versa? -/")
     L.append("def paramSetClearsOther : Bool := %s" % ("true" if param_set_clears_other else "false"))
+    L.append("/-- every site that mutates a member restored by scope guards: (member id, where, guard declared before the first mutation) -/")
+    L.append("def guardSites : List (Nat × String × Bool) := [")
+    L.append(",\n".join('  (%d, "%s", %s)' % (m_, w_, "true" if ok_ else "false") for (m_, w_, ok_) in guard_sites))
+    L.append("]")
+    L.append("/-- every user of the scratch QName: (where, assigns it before reading) -/")
+    L.append("def scratchSites : List (String × Bool) := [")
+    L.append(",\n".join('  ("%s", %s)' % (w_, "true" if ok_ else "false") for (w_, ok_) in scratch_sites))
+    L.append("]")
+    L.append("def guardClassProblems : List String := [%s]" % ", ".join('"%s"' % u for u in guard_class_problems))
     L.append("def vsStack : Nat := %d" % M.mid("VS", "m_stack"))
     L.append("def vsIndex : Nat := %d" % M.mid("VS", "m_currentStackFrameIndex"))
     L.append("end XalanModel.Generated.C06")
@@ -866,6 +1054,8 @@ def main():
         "unclassified": unclassified, "stale_classification_entries": stale,
         "sticky_written": sticky_written, "order_problems": order_problems,
         "objStackResetZeroesDepth": funcs[("OSC", "zeroes")], "paramSetClearsOther": param_set_clears_other,
+        "guard_sites": guard_sites, "scratch_sites": scratch_sites, "guard_classes": guard_classes,
+        "guard_class_problems": guard_class_problems,
     }
     with open(out_json, "w") as f:
         json.dump(side, f, indent=1)
